@@ -203,6 +203,7 @@ func (x *hW) opRemoveEntity(i int) {
 	x.expectPanic(pan, msg, !legal, "RemoveEntity panics exactly when illegal")
 	if !pan {
 		x.alive[i] = false
+		x.pRecycle(e)
 	}
 }
 
@@ -241,6 +242,7 @@ func (x *hW) opReset() {
 	x.expectPanic(pan, msg, !legal, "Reset panics exactly when locked")
 	if !pan {
 		x.n = 0
+		x.pReset()
 	}
 }
 
@@ -367,10 +369,19 @@ func (x *hW) opRemoveEntities(flt Filter, f int, t Entity) {
 		return
 	}
 	vAssert(cnt == n, "RemoveEntities returns the number of matching entities")
+	nrem := 0
+	last := -1
 	for j := 0; j < x.n; j++ {
 		if x.modelMatch(j, f, t) {
 			x.alive[j] = false
+			nrem++
+			last = j
 		}
+	}
+	if nrem == 1 {
+		x.pRecycle(x.h[last])
+	} else if nrem > 1 {
+		x.pKnown = false // recycling order inside a batch removal is not modelled
 	}
 }
 
